@@ -23,20 +23,25 @@ from gym_gridverse.utils.fast_copy import fast_copy
 O = steps.O
 
 
+STATEFUL_TYPES = {'Door', 'Box', 'Exit', 'Key', 'Telepod', 'Beacon'}
+
+
 def identities(state):
     """identities of every mutable component reachable from a state"""
     out = {id(state.grid), id(state.grid.objects), id(state.agent), id(state.agent.transform)}
     for row in state.grid.objects:
         out.add(id(row))
         for o in row:
-            # Floor/Wall/... instances are mutable python objects too (attributes can be set)
-            out.add(id(o))
+            # objects that carry per-instance state (status, colour, content); stateless kinds (Floor, Wall, ...)
+            # may legitimately be shared, e.g. as flyweights, without any aliasing hazard
+            if type(o).__name__ in STATEFUL_TYPES:
+                out.add(id(o))
             c = getattr(o, 'content', None)
             while c is not None:
                 out.add(id(c))
                 c = getattr(c, 'content', None)
     it = state.agent.grid_object
-    if type(it).__name__ != 'NoneGridObject':
+    if type(it).__name__ in STATEFUL_TYPES:
         out.add(id(it))
     return out
 
